@@ -749,8 +749,17 @@ fn analyze(h: &History, cfg: Cfg) -> Out {
         }
     };
 
-    for (variant, p0) in [("real", &real), ("rerecorded", &deco)] {
+    let deco_sparse = match decorate_mode(&h.rt, true) {
+        Ok(p) => p,
+        Err(e) => {
+            out.machinery.push(format!("decorate(sparse) failed for {hs}: {e}"));
+            return out;
+        }
+    };
+
+    for (variant, p0) in [("real", &real), ("rerecorded", &deco), ("rerecorded-sparse", &deco_sparse)] {
         let real_variant = variant == "real";
+        let sparse = variant == "rerecorded-sparse";
         // ---- references: checkpoint-free replay from U0 -------------------------------------
         let refs_s = match replay_all(p0, w, base, n) {
             Ok(v) => v,
@@ -804,7 +813,7 @@ fn analyze(h: &History, cfg: Cfg) -> Out {
                 ));
             }
             if !real_variant && t > 0 {
-                let want = outputs_for(p0.entry(w, wt(t as u64 - 1)).map(|e| e.commit_global_tick.as_u64()).unwrap_or(0));
+                let want = outputs_for_mode(p0.entry(w, wt(t as u64 - 1)).map(|e| e.commit_global_tick.as_u64()).unwrap_or(0), sparse);
                 let got: Vec<(_, Vec<u8>)> = refs_s[t]
                     .last_materialization()
                     .iter()
@@ -815,6 +824,8 @@ fn analyze(h: &History, cfg: Cfg) -> Out {
                         "c07:replay_at:last_materialization is not the outputs recorded for tick t-1".into(),
                         json!({"case": {"history": hs, "variant": variant, "tick": t}}),
                     ));
+                } else if want.is_empty() {
+                    out.c("last_materialization_checked_empty_after_nonempty_history", u64::from(t > 1));
                 } else {
                     out.c("last_materialization_checked_nonempty", 1);
                 }
@@ -1382,7 +1393,8 @@ fn main() {
             })
             .collect();
         for (n, o) in outs {
-            expected_forks += 2 * n * (1u64 << (n + 1));
+            // 3 provenance variants (real, re-recorded, re-recorded-sparse) x n fork ticks x 2^(n+1) checkpoint subsets
+            expected_forks += 3 * n * (1u64 << (n + 1));
             merge(&r, o);
         }
         done += k;
@@ -1405,5 +1417,6 @@ fn main() {
     r.guard("all_step_results_seen",
         ["step:NoOp", "step:Advanced", "step:Seeked", "step:ReachedFrontier"].iter().all(|k| r.outcome_count(k) > 0));
     r.guard("nonempty_last_materialization_checked", r.counter_value("last_materialization_checked_nonempty") > 0);
+    r.guard("empty_outputs_after_nonempty_outputs_checked", r.counter_value("last_materialization_checked_empty_after_nonempty_history") > 0);
     r.finish();
 }
